@@ -131,8 +131,8 @@ func c03Guard(p *Program, r *Report) {
 			if a := atomicCall(in); a != nil && a.Op == "Load" && a.Field == lc.State {
 				return "state", true
 			}
-			if c, ok := in.(*ssa.Call); ok && c.Call.IsInvoke() && c.Call.Method.Name() == "System" && strip(c.Call.Value) == ssa.Value(env) {
-				return "system", true
+			if c, ok := in.(*ssa.Call); ok && c.Call.IsInvoke() && c.Call.Method.Name() == "System" && types.Identical(c.Call.Value.Type(), env.Type()) {
+				return "system", true // System() of the envelope (also inside an extracted guard helper, where it is that helper's parameter)
 			}
 			if u, ok := in.(*ssa.UnOp); ok && u.Op == token.MUL {
 				if f, _ := fieldAddr(u.X); f == lc.Zombie {
